@@ -240,6 +240,8 @@ def check_case(case, common, out):
     except Exception as ex:
         out["notes"][f"refused at construction: {case[3]}"] = f"{type(ex).__name__}: {str(ex)[:80]}"
         return
+    if prog.undefined:
+        return
     D.clear_cache()
     ref = D.den(q.expr) if hasattr(q, "expr") else ("err", "eager")
     try:
